@@ -27,6 +27,7 @@ func TestVerifC11Race(t *testing.T) {
 				in.inject(i, (&sReq{Kind: kAssoc, Conn: i, Seq: 1}).build(in.conns[i]).marshal())
 			}
 			out := c11Result{Causes: make([]string, len(sc.Streams))}
+			ups := c11Prologue(in, sc, func(a int, b []byte) [][]byte { r, _, _ := in.inject(a, b); return r })
 			var wg sync.WaitGroup
 			for a := range sc.Streams {
 				wg.Add(1)
@@ -34,7 +35,7 @@ func TestVerifC11Race(t *testing.T) {
 					defer wg.Done()
 					var mine c11Result
 					mine.Causes = make([]string, len(sc.Streams))
-					c11Stream(in, sc, a, &mine)
+					c11Stream(in, sc, a, &mine, ups)
 				}(a)
 			}
 			wg.Wait()
